@@ -1,19 +1,326 @@
 package main
 
 import (
+	"encoding/json"
+	"flag"
 	"fmt"
-	"golang.org/x/tools/go/packages"
-	"golang.org/x/tools/go/ssa"
-	"golang.org/x/tools/go/ssa/ssautil"
+	"os"
+	"path/filepath"
+	"runtime/debug"
+	"sort"
+	"strings"
+	"sync"
+	"time"
 )
 
-func main() {
-	cfg := &packages.Config{Mode: packages.LoadAllSyntax, Dir: "/repo", BuildFlags: []string{"-tags=verif"}}
-	pkgs, err := packages.Load(cfg, "./internal/encoding")
-	if err != nil {
-		panic(err)
-	}
-	prog, spkgs := ssautil.AllPackages(pkgs, ssa.InstantiateGenerics|ssa.GlobalDebug)
-	prog.Build()
-	fmt.Println(len(spkgs), spkgs[0].Pkg.Path())
+const verifDir = "/verif"
+
+func fatal(f string, a ...any) {
+	fmt.Fprintf(os.Stderr, "govc: "+f+"\n", a...)
+	os.Exit(2)
 }
+
+// contractDirs: directories of /repo that hold contract files
+func contractDirs(repo string) []string {
+	var dirs []string
+	filepath.WalkDir(repo, func(p string, d os.DirEntry, err error) error {
+		if err != nil {
+			return nil
+		}
+		if d.IsDir() && (d.Name() == ".git" || d.Name() == "node_modules") {
+			return filepath.SkipDir
+		}
+		if !d.IsDir() && strings.HasPrefix(d.Name(), "zz_contracts") && strings.HasSuffix(d.Name(), "_verif.go") {
+			rel, _ := filepath.Rel(repo, filepath.Dir(p))
+			dirs = append(dirs, rel)
+		}
+		return nil
+	})
+	sort.Strings(dirs)
+	var out []string
+	for i, d := range dirs {
+		if i == 0 || dirs[i-1] != d {
+			out = append(out, d)
+		}
+	}
+	return out
+}
+
+func hasTag(tags []string, t string) bool {
+	for _, x := range tags {
+		if x == t {
+			return true
+		}
+	}
+	return false
+}
+
+type genResult struct {
+	obls    []*Obl
+	gens    []*gen
+	errors  []string
+	funcs   []string
+	assumes []string
+}
+
+// generate builds all obligations of contracts tagged with prop ("" = all).
+func generate(w *World, prop string, only string) *genResult {
+	r := &genResult{}
+	for _, ct := range w.contractsSorted() {
+		if prop != "" && !hasTag(ct.Tags, prop) {
+			continue
+		}
+		if only != "" && !strings.Contains(ct.FullKey, only) {
+			continue
+		}
+		switch ct.Kind {
+		case "func":
+			fn := w.funcsByKey[ct.FullKey]
+			if fn == nil {
+				r.errors = append(r.errors, fmt.Sprintf("contract %s (%s:%d): no such function in the current tree", ct.FullKey, ct.File, ct.Line))
+				// the locked obligations of this function will be reported as missing
+				continue
+			}
+			g := newGen(w, fn, ct)
+			func() {
+				defer func() {
+					if e := recover(); e != nil {
+						if se, ok := e.(specErr); ok {
+							r.errors = append(r.errors, fmt.Sprintf("%s: %s", ct.FullKey, se.msg))
+						} else {
+							r.errors = append(r.errors, fmt.Sprintf("%s: engine panic: %v\n%s", ct.FullKey, e, debug.Stack()))
+						}
+						g.obls = nil
+					}
+				}()
+				g.run()
+			}()
+			for _, t := range ct.Tolerates {
+				if !t.Used && len(g.obls) > 0 {
+					r.errors = append(r.errors, fmt.Sprintf("%s: tolerates call#%d %s matches no call", ct.FullKey, t.Ord, t.Callee))
+				}
+			}
+			r.gens = append(r.gens, g)
+			r.obls = append(r.obls, g.obls...)
+			r.funcs = append(r.funcs, ct.FullKey)
+		case "lemma":
+			g := newGen(w, nil, ct)
+			func() {
+				defer func() {
+					if e := recover(); e != nil {
+						if se, ok := e.(specErr); ok {
+							r.errors = append(r.errors, fmt.Sprintf("%s: %s", ct.FullKey, se.msg))
+						} else {
+							r.errors = append(r.errors, fmt.Sprintf("%s: engine panic: %v\n%s", ct.FullKey, e, debug.Stack()))
+						}
+						g.obls = nil
+					}
+				}()
+				g.runLemma()
+			}()
+			r.gens = append(r.gens, g)
+			r.obls = append(r.obls, g.obls...)
+		}
+	}
+	return r
+}
+
+func (g *gen) runLemma() {
+	ct := g.ct
+	g.ensureSort(sErr)
+	if sp := g.w.pkgs[ct.Pkg]; sp != nil {
+		g.w.lemmaPkg = sp.Pkg
+	}
+	for _, gh := range g.unit.Ghosts {
+		g.ghostComp(gh)
+	}
+	e := &env{g: g, vars: map[string]T{}, state: map[string]string{}, useInit: true}
+	for _, p := range ct.Params {
+		s := g.sortOfSpecType(p.Type)
+		n := g.declConst("l."+p.Name, s)
+		t := T{S: n, Sort: s, Signed: specTypeSigned(p.Type)}
+		if s == sSlice {
+			g.assume(g.wfSlice(n))
+			t.GoT = byteSliceType
+		}
+		e.vars[p.Name] = t
+		g.params[p.Name] = t
+	}
+	for _, ax := range g.unit.Axioms {
+		g.assume(g.specBool(e, ax))
+	}
+	for _, rq := range ct.Requires {
+		g.assume(g.specBool(e, rq))
+	}
+	o := g.addObl("presat", "pre-sat", "requires satisfiable", "false", 0)
+	o.Cover = true
+	o.Name = ct.FullKey + "#pre-sat"
+	for i, en := range ct.Ensures {
+		goal := g.specBool(e, en)
+		o := g.addObl("lemma", fmt.Sprintf("ensures[%d]", i+1), en.Text, goal, 0)
+		o.Name = fmt.Sprintf("%s#ensures[%d]", ct.FullKey, i+1)
+	}
+}
+
+// ---------------------------------------------------------------- running obligations
+
+type OblResult struct {
+	O      *Obl
+	R      *SolveResult
+	Status string // discharged, failed(sat), undecided, cover-ok, cover-vacuous, cover-unknown, known
+}
+
+func runObls(obls []*Obl, workdir string, timeoutS, seed int, agree bool, par int) []*OblResult {
+	res := make([]*OblResult, len(obls))
+	var wg sync.WaitGroup
+	sem := make(chan struct{}, par)
+	for i, o := range obls {
+		wg.Add(1)
+		go func(i int, o *Obl) {
+			defer wg.Done()
+			sem <- struct{}{}
+			defer func() { <-sem }()
+			q := o.query("", true)
+			to := timeoutS
+			if o.Cover {
+				to = min(timeoutS, 5)
+			}
+			r := solve(workdir, o.Name, q, to, seed, agree && !o.Cover)
+			or := &OblResult{O: o, R: r}
+			switch {
+			case o.Cover && r.Status == "sat":
+				or.Status = "cover-ok"
+			case o.Cover && r.Status == "unsat":
+				or.Status = "cover-vacuous"
+			case o.Cover:
+				or.Status = "cover-unknown"
+			case r.Status == "unsat":
+				or.Status = "discharged"
+			case r.Status == "sat":
+				or.Status = "failed"
+			case r.Status == "disagree":
+				or.Status = "disagree"
+			default:
+				or.Status = "undecided"
+			}
+			// known-finding carve-out: re-run with the excluded inputs removed
+			if (or.Status == "failed" || or.Status == "undecided") && o.Known != nil {
+				q2 := o.query(not(o.KnownEx), false)
+				r2 := solve(workdir, o.Name+".carved", q2, timeoutS, seed, false)
+				if r2.Status == "unsat" {
+					or.Status = "known"
+				}
+			}
+			res[i] = or
+		}(i, o)
+	}
+	wg.Wait()
+	return res
+}
+
+// ---------------------------------------------------------------- lock file
+
+type LockEntry struct {
+	Solver string  `json:"solver"`
+	Time   float64 `json:"time_s"`
+	Kind   string  `json:"kind"`
+}
+
+type LockFile map[string]map[string]LockEntry // property -> obligation -> entry
+
+func loadLock() LockFile {
+	lf := LockFile{}
+	data, err := os.ReadFile(filepath.Join(verifDir, "obligations.lock.json"))
+	if err == nil {
+		json.Unmarshal(data, &lf)
+	}
+	return lf
+}
+
+func saveLock(lf LockFile) {
+	data, _ := json.MarshalIndent(lf, "", " ")
+	os.WriteFile(filepath.Join(verifDir, "obligations.lock.json"), append(data, '\n'), 0o644)
+}
+
+// ---------------------------------------------------------------- main
+
+func main() {
+	if len(os.Args) < 2 {
+		fatal("usage: govc check|lock|dump ...")
+	}
+	switch os.Args[1] {
+	case "check":
+		fs := flag.NewFlagSet("check", flag.ExitOnError)
+		repo := fs.String("repo", "/repo", "repository root")
+		tier := fs.String("tier", "quick", "quick|thorough")
+		lock := fs.Bool("lock", false, "rewrite the lock entries of this property from this run")
+		only := fs.String("only", "", "restrict to contracts whose key contains this")
+		verbose := fs.Bool("v", false, "verbose")
+		fs.Parse(os.Args[2:])
+		if fs.NArg() < 1 {
+			fatal("usage: govc check [flags] <property>")
+		}
+		os.Exit(cmdCheck(*repo, fs.Arg(0), *tier, *lock, *only, *verbose))
+	case "dump":
+		fs := flag.NewFlagSet("dump", flag.ExitOnError)
+		repo := fs.String("repo", "/repo", "repository root")
+		fs.Parse(os.Args[2:])
+		cmdDump(*repo, fs.Arg(0))
+	default:
+		fatal("unknown command %s", os.Args[1])
+	}
+}
+
+func dirsForProp(repo, prop string) []string {
+	// cheap pre-parse: a directory is needed if one of its contract files mentions the tag
+	var out []string
+	for _, d := range contractDirs(repo) {
+		files, _ := filepath.Glob(filepath.Join(repo, d, "zz_contracts*_verif.go"))
+		for _, f := range files {
+			data, _ := os.ReadFile(f)
+			if prop == "" || strings.Contains(string(data), prop) {
+				out = append(out, d)
+				break
+			}
+		}
+	}
+	return out
+}
+
+func cmdDump(repo, key string) {
+	w, err := LoadWorld(repo, dirsForProp(repo, ""))
+	if err != nil {
+		fatal("%v", err)
+	}
+	gr := generate(w, "", key)
+	for _, e := range gr.errors {
+		fmt.Fprintln(os.Stderr, "ERROR", e)
+	}
+	dir := filepath.Join(verifDir, ".work", "dump")
+	os.MkdirAll(dir, 0o755)
+	for _, o := range gr.obls {
+		f := filepath.Join(dir, safeName.ReplaceAllString(o.Name, "_")+".smt2")
+		os.WriteFile(f, []byte(o.query("", true)), 0o644)
+		fmt.Println(o.Name, "->", f)
+	}
+	for _, g := range gr.gens {
+		for _, wmsg := range g.warnings {
+			fmt.Fprintln(os.Stderr, "WARN", g.fnKey(), wmsg)
+		}
+		for _, u := range g.unmod {
+			fmt.Fprintln(os.Stderr, "UNMODELLED", g.fnKey(), u)
+		}
+	}
+}
+
+func envInt(name string, def int) int {
+	if v := os.Getenv(name); v != "" {
+		var n int
+		if _, err := fmt.Sscanf(v, "%d", &n); err == nil {
+			return n
+		}
+	}
+	return def
+}
+
+var startTime = time.Now()
